@@ -273,13 +273,29 @@ func Run(ctx *common.Ctx) {
 		groups = append(groups, g)
 		keys = append(keys, ks)
 	}
+	// moves in the argument list inside iterations and inside conditionals nested in iterations (round 5): enumerated,
+	// the same in every run
+	{
+		ims := iterMoveControls()
+		for i := 0; i < len(ims); i += 300 {
+			var g []job
+			var ks []string
+			for _, im := range ims[i:min(i+300, len(ims))] {
+				g = append(g, mk(fmt.Sprintf("(format nil %s%s)", lispString(im[0]), im[1])))
+				ks = append(ks, "format")
+				ctx.Hist("format-iteration-move")
+			}
+			groups = append(groups, g)
+			keys = append(keys, ks)
+		}
+	}
 	// the reader
 	nrand := 60000
 	if ctx.Thorough() {
 		nrand = 3000000
 	}
 	rg := []job{{Kind: "read-sweep", Src: "short", Deadline: 300}, {Kind: "read-sweep", Src: "triples", Deadline: 300}, {Kind: "read-sweep", Src: "quads", Deadline: 600},
-		{Kind: "read-sweep", Src: "templates", Deadline: 300},
+		{Kind: "read-sweep", Src: "templates", Deadline: 300}, {Kind: "read-sweep", Src: "sharp-digits", Deadline: 300},
 		{Kind: "read-sweep", Src: "stream-cuts", Seed: 0, Deadline: 600}, {Kind: "read-sweep", Src: "stream-cuts", Seed: 1, Deadline: 600},
 		{Kind: "read-sweep", Src: "stream-pairs", Deadline: 300}}
 	for i := 0; i < 12; i++ {
@@ -488,9 +504,11 @@ func Run(ctx *common.Ctx) {
 	header := "From Coq Require Import ZArith.\nFrom C09 Require Import Format Corr.\nFrom GenC09 Require Import Tables.\n"
 	footer := "Definition res := Eval vm_compute in check_all tb cases.\nPrint res.\nDefinition modelled := Eval vm_compute in modelled_count tb cases.\nPrint modelled.\n"
 	ctx.WriteShards("cases", header, "case", footer, terms, descs, 16)
+	// (E) round 5: iterations around bodies of move directives and the count after #, compared with coq/C09/Progress.v
+	total += progressCases(ctx, self, dir, workers, memKB, mk)
 	ctx.Meta.Evaluations = total
 	ctx.Meta.DistinctNontrivial = total
-	ctx.Meta.Rule = fmt.Sprintf("every function of the packages cl, gi, bag, clos, flavors, generic, ... (%d swept, deny-list for those that exit, sleep, block on input or touch files/network) applied to the empty tuple, every 1-tuple of a %d-object pool, all %d 2-tuples, all 3-tuples over a 9-object core and seeded 3..5-tuples, nested calls and recursion 10..200 deep with tracing off and on, each function in a process of its own with a 4 s deadline and a memory limit; format control strings over the directive alphabet with prefix parameters (numbers, 'c, v, #), modifiers and 0..4 arguments; the reader on every byte string of length 1 and 2, every length-3 string over its syntax bytes, every length-4 string over 24 core syntax bytes, templates (#n dispatch macros x nested contents, numbers with every exponent marker x exponents up to 10^8, nesting 10^4 deep) and random strings. Outcome classes: value / Lisp condition / host fault (runtime error, interface conversion, unhashable key, non-Lisp panic) / hang / process death; every fault is re-run alone in a fresh process before it counts", len(fns), len(pool), len(pool)*len(pool))
+	ctx.Meta.Rule = fmt.Sprintf("every function of the packages cl, gi, bag, clos, flavors, generic, ... (%d swept, deny-list for those that exit, sleep, block on input or touch files/network) applied to the empty tuple, every 1-tuple of a %d-object pool, all %d 2-tuples, all 3-tuples over a 9-object core and seeded 3..5-tuples, nested calls and recursion 10..200 deep with tracing off and on, each function in a process of its own with a 4 s deadline and a memory limit; format control strings over the directive alphabet with prefix parameters (numbers, 'c, v, #), modifiers and 0..4 arguments, and every move ~n* ~n:* ~n@* (n over nothing, 0..3, large counts, v, #) in the body of every kind of iteration and in a conditional nested in it, over argument lists that make a pass end where it began; the reader on every byte string of length 1 and 2, every length-3 string over its syntax bytes, every length-4 string over 24 core syntax bytes, # followed by every kind of digit run of length 1..25 (around 2^31, 2^32, 2^63, 2^64 and the values that wrap to a valid count) before every dispatch character that takes a count, whole and in two blocks, templates (#n dispatch macros x nested contents, numbers with every exponent marker x exponents up to 10^8, nesting 10^4 deep) and random strings. Outcome classes: value / Lisp condition / host fault (runtime error, interface conversion, unhashable key, non-Lisp panic) / hang / process death; every fault is re-run alone in a fresh process before it counts", len(fns), len(pool), len(pool)*len(pool))
 }
 
 func outcomeKind(r result) string {
